@@ -30,11 +30,20 @@ def view_translation(prog, fn):
     plus whether the DICT_1 / DICT table fallbacks are present."""
     names = {}
     tables = set()
+    keyexprs = {'key.strip().lower()'}
+    for n in ast.walk(fn.node):
+        if isinstance(n, ast.Assign) and isinstance(n.targets[0], ast.Name) and src_of(n.value) == 'key.strip().lower()':
+            keyexprs.add(n.targets[0].id)
     for n in ast.walk(fn.node):
         if isinstance(n, ast.If):
+            tests = [n.test] if not (isinstance(n.test, ast.BoolOp) and isinstance(n.test.op, ast.Or)) else list(n.test.values)
+            for t in tests:
+                for k in keyexprs:
+                    if 'BGP_EXT_COM_DICT_1.get(%s)' % k in src_of(t):
+                        tables.add('DICT_1')
             t = n.test
             if isinstance(t, ast.Compare) and isinstance(t.ops[0], ast.Eq) and \
-                    src_of(t.left) == 'key.strip().lower()' and isinstance(t.comparators[0], ast.Constant):
+                    src_of(t.left) in keyexprs and isinstance(t.comparators[0], ast.Constant):
                 name = t.comparators[0].value
                 codes = set()
                 for c in ast.walk(ast.Module(body=n.body, type_ignores=[])):
@@ -46,7 +55,7 @@ def view_translation(prog, fn):
             if 'BGP_EXT_COM_DICT_1.get(key.strip().lower())' in src_of(t):
                 tables.add('DICT_1')
     txt = src_of(fn.node)
-    if 'bgp_cons.BGP_EXT_COM_DICT.get(key.strip().lower())' in txt:
+    if any('bgp_cons.BGP_EXT_COM_DICT.get(%s)' % k in txt for k in keyexprs):
         tables.add('DICT')
     return names, tables
 
@@ -58,22 +67,43 @@ def recombine_block(fn):
     return None
 
 
-def arms(block):
-    """{condition text: normalised body dump} of the if/elif chain inside the for loop."""
+class _Unalias(ast.NodeTransformer):
+    def __init__(self, aliases):
+        self.aliases = aliases
+
+    def visit_Name(self, node):
+        if node.id in self.aliases and isinstance(node.ctx, ast.Load):
+            return ast.parse('key.strip().lower()', mode='eval').body
+        return node
+
+
+def arms(block, fn=None):
+    """{condition text: normalised body dump} of the if/elif chain inside the for loop; local
+    aliases of key.strip().lower() are substituted back so that a copy using a named local
+    compares equal."""
+    import copy
+    aliases = set()
+    for n in ast.walk(fn.node if fn is not None else block):
+        if isinstance(n, ast.Assign) and isinstance(n.targets[0], ast.Name) and src_of(n.value) == 'key.strip().lower()':
+            aliases.add(n.targets[0].id)
+    if aliases:
+        block = _Unalias(aliases).visit(copy.deepcopy(block))
+        ast.fix_missing_locations(block)
     out = {}
     loops = [n for n in ast.walk(block) if isinstance(n, ast.For) and src_of(n.target) == 'ext_com']
     if not loops:
         return out
     chain = [s for s in loops[0].body if isinstance(s, ast.If)]
+    # statements before the chain that only define the alias are not part of the comparison
     if not chain:
         return out
     node = chain[0]
     while True:
-        out[src_of(node.test)] = '\n'.join(ast.dump(s) for s in node.body)
+        out[src_of(node.test)] = '\n'.join(ast.dump(s, include_attributes=False) for s in node.body)
         if len(node.orelse) == 1 and isinstance(node.orelse[0], ast.If):
             node = node.orelse[0]
         else:
-            out['else'] = '\n'.join(ast.dump(s) for s in node.orelse)
+            out['else'] = '\n'.join(ast.dump(s, include_attributes=False) for s in node.orelse)
             break
     return out
 
@@ -148,8 +178,8 @@ def check(prog, rep, tier):
                     expected='inverse tables', key=key)
 
     # ---------------------------------------------------------------- R17.b
-    a1 = arms(recombine_block(views['send_update_message'][0]) or ast.Pass())
-    a2 = arms(recombine_block(views['json_to_bin'][0]) or ast.Pass())
+    a1 = arms(recombine_block(views['send_update_message'][0]) or ast.Pass(), views['send_update_message'][0])
+    a2 = arms(recombine_block(views['json_to_bin'][0]) or ast.Pass(), views['json_to_bin'][0])
     if not a1 or not a2:
         rep.undecided('R17.b', 'recombination-copies', found='recombination block not found in both views')
     else:
